@@ -2094,10 +2094,12 @@ impl DB {
                 match FileNameHandler::get_file_type_from_name(file.as_path()) {
                     Ok(file_type) => match file_type {
                         ParsedFileType::ManifestFile(manifest_file_num) => {
-                            // Keep current manifest as well as any newer manifests (which can
-                            // happen if there is an undiscovered race condition)
+                            // Keep only the current manifest. A manifest with a higher number can
+                            // only be the leftover of an incarnation that crashed before it
+                            // switched `CURRENT` (the database lock excludes concurrent
+                            // incarnations) and would otherwise stay around forever.
                             if manifest_file_num
-                                < db_fields_guard.version_set.get_manifest_file_number()
+                                != db_fields_guard.version_set.get_manifest_file_number()
                             {
                                 log::debug!(
                                     "Marking manifest file {:?} for deletion.",
